@@ -177,8 +177,12 @@ def render_contract(fn, unit, as_stub):
 def wrap_item(unit, item_text):
     """place the fn inside `pub mod X { use super::*; ... }` and/or `impl T { ... }`"""
     pre, post = "", ""
-    if unit.get("mod"):
-        pre += f"pub mod {unit['mod']} {{\nuse super::*;\n"
+    mod = unit.get("mod") or ("unit_scope" if unit.get("broadcast") else None)
+    if mod:
+        pre += f"pub mod {mod} {{\nuse super::*;\n"
+        if unit.get("broadcast"):
+            # axioms are revealed only inside the module of the function under contract
+            pre += "broadcast use " + ", ".join(unit["broadcast"]) + ";\n"
         post = "\n}" + post
     if unit.get("impl"):
         pre += f"impl {unit['impl']} {{\n"
@@ -278,7 +282,7 @@ def parse_diagnostics(stderr):
 
 def run_verus(path, rlimit=30, extra=()):
     t0 = time.time()
-    cmd = ["verus", path, "--multiple-errors", "30", "--output-json", "--time", "--rlimit", str(rlimit),
+    cmd = ["verus", path, "--edition=2024", "--multiple-errors", "30", "--output-json", "--time", "--rlimit", str(rlimit),
            "--num-threads", "1", *extra]
     try:
         p = subprocess.run(cmd, capture_output=True, text=True, timeout=600,
@@ -297,7 +301,7 @@ def classify(unit, meta, run):
     """-> dict(obligations: {oid: dict(status=discharged|failed|undecided, detail=...)}, smt_ms, ...)"""
     oids = [o for o, _p, _c in unit.get("ensures", [])]
     safe_id = unit["safe_id"]
-    all_ids = oids + [safe_id]
+    all_ids = oids + ([] if unit.get("no_safe") else [safe_id])
     res = {}
 
     def undecided(reason):
@@ -350,6 +354,8 @@ def classify(unit, meta, run):
         return dict(obligations=undecided("verification error outside the function under contract: " + b["msg"]),
                     smt_ms=smt_ms, func=funcs)
     # rlimit / timeouts show up as errors with "Resource limit" messages → handled by `hard`
+    if unit.get("no_safe"):
+        failed.pop(safe_id, None)   # reachable panics are expected in a unit without preconditions
     for o in all_ids:
         if o in failed:
             res[o] = dict(status="failed", detail="\n".join("\n".join(b["lines"]) for b in failed[o]))
@@ -360,7 +366,7 @@ def classify(unit, meta, run):
     # if verus says the whole file verified there must be no failures
     if vr.get("success") and failed:
         return dict(obligations=undecided("inconsistent verus output"), smt_ms=smt_ms, func=funcs)
-    if not vr.get("success") and not failed:
+    if not vr.get("success") and not failed and not unit.get("no_safe"):
         return dict(obligations=undecided("verus reported failure without a locatable error: " + run["stderr"][-300:]),
                     smt_ms=smt_ms, func=funcs)
     return dict(obligations=res, smt_ms=smt_ms, func=funcs)
